@@ -15,7 +15,7 @@ PROPERTIES = {}
 # harness files that use helpers living in another module's harness file
 MODULE_NEEDS = {
     "vanilla_header": ["normalized_string"],
-    "tbc_header": ["normalized_string"],
+    "tbc_header": ["normalized_string", "vanilla_header"],
 }
 
 
@@ -194,3 +194,106 @@ for _h in ["c12_frame", "c12_split_unsplit"]:
       inputs="arbitrary combined state / arbitrary pair of halves (all pairs of 40-byte keys)",
       asserts="frame property per direction; split/clone/unsplit identities; unsplit Ok <=> all 40 key bytes equal, halves unchanged",
       bounds="chunks <= 6 bytes (chunk generality is C07); unwind 42", assumes=[])
+
+for _h, _t in [("c11_tbc_typed_helpers", 900), ("c11_tbc_read_client", 1800), ("c11_tbc_read_server", 1800), ("c11_tbc_write_client", 1800), ("c11_tbc_write_server", 1800),
+               ("c11_tbc_read_client_facade", 1800), ("c11_tbc_read_server_facade", 1800), ("c11_tbc_write_client_facade", 1800), ("c11_tbc_write_server_facade", 1800)]:
+    H("C11", "tbc_header", _h, timeout=_t,
+      encodes=["tbc_header::{EncrypterHalf,DecrypterHalf,HeaderCrypto}::* header entry points"],
+      inputs="arbitrary combined cipher state; arbitrary size/opcode or wire bytes; nondeterministic reader/writer",
+      asserts="as the vanilla C11 harnesses, over the TBC types",
+      bounds="<= 8 I/O calls; unwind 42", assumes=[IO_ASSUME])
+for _h in ["c12_tbc_frame", "c12_tbc_split"]:
+    H("C12", "tbc_header", _h, timeout=900,
+      encodes=["tbc_header::HeaderCrypto::{encrypt,decrypt,split,clone}"],
+      inputs="arbitrary combined state", asserts="frame property per direction; split/clone identities",
+      bounds="chunks <= 6 bytes; unwind 42", assumes=[])
+
+MODULE_NEEDS.update({
+    "rc4": [],
+    "wrath_header::inner_crypto": ["rc4"],
+    "wrath_header::encrypt": ["wrath_header::inner_crypto"],
+    "wrath_header::decrypt": ["wrath_header::inner_crypto"],
+    "wrath_header": ["wrath_header::encrypt", "wrath_header::decrypt", "wrath_header::inner_crypto", "rc4", "vanilla_header", "normalized_string"],
+})
+PAD_ASSUME = "Wrath keystream abstracted: InnerCrypto::apply is stubbed by a symbolic one-time pad (any keystream is a possible pad; 'equal states => equal keystream and equal next state' is C09's step lemma)"
+# ------------------------------------------------------------------------------------------------
+# C09
+# ------------------------------------------------------------------------------------------------
+P("C09",
+  outside=["RC4 key scheduling for ALL keys (the symbolic-key query timed out at 50 min in the design probe): only a concrete-key instance is checked here, the rest rests on the repository's RFC 6229 / vector tests",
+           "HMAC-SHA1 itself (uninterpreted)", "executing the 1024 dropped steps: the drop length is established structurally (one keystream application over a 1024-byte buffer before first use)"],
+  assumptions=[HASH_ASSUME, "induction over the one-step lemma extends to streams of any length and chunking"])
+H("C09", "rc4", "c09_prga_step", timeout=600,
+  encodes=["rc4::Rc4::apply_keystream", "rc4::Rc4::pseudo_random_generation"],
+  inputs="state [u8;256], i, j, input byte: all any", asserts="one keystream byte and next state == textbook PRGA step (incl. counter wrap and i==j swap); empty call is the identity",
+  bounds="one step from an arbitrary state (inductive); unwind 258", assumes=[])
+H("C09", "rc4", "c09_apply_is_steps", timeout=900,
+  encodes=["rc4::Rc4::apply_keystream"], inputs="state, i, j any; n in {0,1}; data any",
+  asserts="an n-byte call equals n applications of the step function XORed onto the data; empty call is the identity", bounds="n in {0,1} from every state; unwind 258", assumes=[])
+H("C09", "rc4", "c09_apply_is_steps_2", timeout=5400, tiers=["thorough"],
+  encodes=["rc4::Rc4::apply_keystream"], inputs="state, i, j any; n = 2; data any",
+  asserts="a 2-byte call equals 2 applications of the step function", bounds="n = 2 from every state; unwind 258", assumes=[])
+H("C09", "rc4", "c09_apply_is_steps_4", timeout=1800,
+  encodes=["rc4::Rc4::apply_keystream"], inputs="state = identity permutation, i, j any; n = 4; data any",
+  asserts="a 4-byte call equals 4 applications of the step function", bounds="n = 4 from the identity permutation with any counters; unwind 258", assumes=[])
+H("C09", "rc4", "c09_apply_is_steps_8", timeout=3600, tiers=["thorough"],
+  encodes=["rc4::Rc4::apply_keystream"], inputs="state = identity permutation, i, j any; n = 8; data any",
+  asserts="an 8-byte call equals 8 applications of the step function", bounds="n = 8 from the identity permutation with any counters; unwind 258", assumes=[])
+H("C09", "rc4", "c09_apply_long", timeout=1800,
+  encodes=["rc4::Rc4::apply_keystream"], inputs="data [u8;300] any; RC4 state concrete (KSA of a fixed key, 5 bytes consumed)",
+  asserts="one 300-byte call made at counter 5 equals 300 PRGA steps (counters wrap inside the call)", bounds="concrete cipher state, n = 300; unwind 302", assumes=[])
+H("C09", "rc4", "c09_ksa_concrete", timeout=1800,
+  encodes=["rc4::Rc4::new", "rc4::Rc4::key_scheduling_algorithm"], inputs="one concrete 20-byte key",
+  asserts="state after Rc4::new == textbook KSA, counters zero", bounds="one concrete key (all-keys out of reach); unwind 258", assumes=[])
+H("C09", "wrath_header::inner_crypto", "c09_wiring", timeout=900, oracle_features=["cap64", "q4"],
+  encodes=["wrath_header::inner_crypto::InnerCrypto::new"], inputs="session key [u8;40], direction constant [u8;16]: any",
+  asserts="exactly one HMAC(constant, session key) query; RC4 keyed exactly once with that 20-byte digest; exactly one keystream application over 1024 bytes before use",
+  bounds="-", assumes=[HASH_ASSUME, "Rc4::new and Rc4::apply_keystream replaced by recording stubs in this harness"])
+H("C09", "wrath_header::inner_crypto", "c09_inner_apply", timeout=900,
+  encodes=["wrath_header::inner_crypto::InnerCrypto::apply"], inputs="arbitrary RC4 state, 1 data byte",
+  asserts="apply == Rc4::apply_keystream (bytes and state)", bounds="1 byte (delegation); unwind 258", assumes=[])
+H("C09", "wrath_header", "c09_directions", timeout=900, oracle_features=["cap128", "q8"],
+  encodes=["ClientEncrypterHalf::new", "ServerDecrypterHalf::new", "ServerEncrypterHalf::new", "ClientDecrypterHalf::new", "ClientCrypto::new", "ServerCrypto::new", "wrath ProofSeed::into_*_header_crypto"],
+  inputs="session key, name, seeds, proof: any",
+  asserts="client-encrypt and server-decrypt use the client-to-server constant, server-encrypt and client-decrypt the other one, all with the session key; also through the public constructors",
+  bounds="-", assumes=[HASH_ASSUME, "InnerCrypto::new replaced by a recording stub in this harness"])
+# ------------------------------------------------------------------------------------------------
+# C10
+# ------------------------------------------------------------------------------------------------
+P("C10", outside=["sizes above 0x7FFFFF (not representable in the 23-bit field; excluded by the statement)"],
+  assumptions=[PAD_ASSUME, "one header from an arbitrary paired state, with the states paired again afterwards, extends by induction to any sequence of headers"])
+H("C10", "wrath_header", "c10_roundtrip", timeout=1200,
+  encodes=["ServerEncrypterHalf::encrypt_server_header", "ClientDecrypterHalf::{read_and_decrypt_server_header, attempt_decrypt_server_header, decrypt_large_server_header}", "ServerHeader::from_small_array/from_large_array", "ServerCrypto/ClientCrypto facade methods"],
+  inputs="paired cipher state (pad + position) any; size <= 0x7FFFFF any; opcode any",
+  asserts="length 4 <=> size <= 0x7FFF; 0x80 marker <=> 5 bytes; both client paths return (size, opcode), consume exactly the emitted bytes, and leave the states paired",
+  bounds="all sizes x all opcodes, one header (inductive); unwind 258", assumes=[PAD_ASSUME])
+H("C10", "wrath_header", "c10_write", timeout=1200,
+  encodes=["ServerEncrypterHalf::write_encrypted_server_header", "ServerCrypto::write_encrypted_server_header"],
+  inputs="as c10_roundtrip", asserts="the Write wrapper emits exactly the bytes of encrypt_server_header and leaves the same cipher state", bounds="unwind 258", assumes=[PAD_ASSUME])
+for _h in ["c11_wrath_typed_helpers", "c11_wrath_read_client", "c11_wrath_read_server", "c11_wrath_write_client", "c11_wrath_write_server"]:
+    H("C11", "wrath_header", _h, timeout=1800,
+      encodes=["wrath_header::{ClientCrypto,ServerCrypto,ClientEncrypterHalf,ServerEncrypterHalf,ClientDecrypterHalf,ServerDecrypterHalf}::* header entry points"],
+      inputs="arbitrary cipher states; arbitrary size/opcode or wire bytes; nondeterministic reader/writer",
+      asserts="helpers/facade/accessors == raw operation on the wire layout; failed read leaves the decrypter unchanged (5-byte header failing at byte 5: state of the 4-byte attempt, completable later); failing writer reported",
+      bounds="<= 8 I/O calls; unwind 258", assumes=[IO_ASSUME, PAD_ASSUME])
+H("C12", "wrath_header", "c12_wrath_frame", timeout=1200,
+  encodes=["wrath_header::{ClientCrypto,ServerCrypto}::{encrypt,decrypt,split,clone}"],
+  inputs="arbitrary independent states of the two halves", asserts="frame property per direction; split/clone identities",
+  bounds="chunks <= 6 bytes; unwind 258", assumes=[PAD_ASSUME])
+
+
+def _c12_precheck(repo):
+    """syntactic guard for the threading part of C12: no shared mutable state can exist in the crate"""
+    import subprocess
+    pat = r"unsafe\s*\{|unsafe\s+fn|unsafe\s+impl|static\s+mut|\bCell<|RefCell<|Atomic[A-Z]|thread_local!|\bMutex<|\bRwLock<|\bRc<|\bArc<|OnceCell|OnceLock|lazy_static"
+    p = subprocess.run(["grep", "-rnE", pat, os.path.join(repo, "src")], capture_output=True, text=True)
+    hits = [l for l in p.stdout.splitlines() if "/test" not in l]
+    lib = open(os.path.join(repo, "src", "lib.rs")).read()
+    if "#![forbid(unsafe_code)]" not in lib:
+        return False, "crate no longer forbids unsafe code; the ownership argument for thread schedules does not apply"
+    if hits:
+        return False, "possible shared mutable state, thread-schedule argument not applicable: " + hits[0][:160]
+    return True, ""
+
+
+PROPERTIES["C12"]["precheck"] = _c12_precheck
